@@ -455,8 +455,12 @@ where
     // shift -2α*log(α) - 2(1-α)*log(1-α) > 0 in f(x),
     // the previous selection is still feasible, i.e. f(x0) > 0
 
-    let x0 =
-        -s3.recip() + (s3 * two + T::sqrt((phi * phi) / (s3 * s3) + phi * three)) / (phi - s3 * s3);
+    // NB: evaluated in a rearranged form.  The textbook expression
+    //   -1/s3 + (2*s3 + sqrt(phi^2/s3^2 + 3*phi)) / (phi - s3^2)
+    // subtracts two numbers of size 1/s3 and cancels to exactly 0 (and
+    // then to NaN below) once s3^2/phi drops under machine precision
+    let u = three * s3 * s3 / phi;
+    let x0 = three * s3 * (T::one() + (T::one() + T::sqrt(T::one() + u)).recip()) / (phi - s3 * s3);
 
     // additional shift due to the choice of dual barrier
     let t0 = -two * α * (α.logsafe()) - two * (T::one() - α) * (T::one() - α).logsafe();
